@@ -150,6 +150,9 @@ pub struct In {
     pe: Pre,
     #[aggregate(strategy = Distribution)]
     pd: Pre,
+    /// observations of tiny magnitude (k * 1e-17): distinct values closer than f64::EPSILON
+    #[aggregate(strategy = Histogram<f64, SortAndMerge>)]
+    tiny: f64,
 }
 
 /// By-reference merge for the tee (the macro's `#[aggregate(ref)]` needs Copy/Clone fields, a closed
@@ -172,6 +175,7 @@ impl MergeRef for InEntry {
         accum.ps.add_value(input.ps);
         accum.pe.add_value(input.pe);
         <Distribution as AggregateValue<Pre>>::insert(&mut accum.pd, input.pd);
+        accum.tiny.add_value(input.tiny);
     }
 }
 
@@ -236,6 +240,9 @@ pub struct InNk {
     pe: Pre,
     #[aggregate(strategy = Distribution)]
     pd: Pre,
+    /// observations of tiny magnitude (k * 1e-17): distinct values closer than f64::EPSILON
+    #[aggregate(strategy = Histogram<f64, SortAndMerge>)]
+    tiny: f64,
 }
 
 #[aggregate(direct)]
@@ -257,6 +264,9 @@ pub struct InDir {
     pe: Pre,
     #[aggregate(strategy = Distribution)]
     pd: Pre,
+    /// observations of tiny magnitude (k * 1e-17): distinct values closer than f64::EPSILON
+    #[aggregate(strategy = Histogram<f64, SortAndMerge>)]
+    tiny: f64,
 }
 
 #[metrics]
@@ -378,15 +388,15 @@ impl Conc {
     fn input(&self, k: u64, v: u64) -> In {
         let (ck, name) = self.key(k);
         let (sum, last, obs, obs2) = self.vals[v as usize - 1];
-        In { ck, name, sum, last, obs: Duration::from_millis(obs), obs2, hs: self.hist(v), he: self.hist(v), hv: self.hist(v), ps: self.pre(v), pe: self.pre(v), pd: self.pre(v) }
+        In { ck, name, sum, last, obs: Duration::from_millis(obs), obs2, hs: self.hist(v), he: self.hist(v), hv: self.hist(v), ps: self.pre(v), pe: self.pre(v), pd: self.pre(v), tiny: v as f64 * 1e-17 }
     }
     fn input_nk(&self, v: u64) -> InNk {
         let (sum, last, obs, obs2) = self.vals[v as usize - 1];
-        InNk { sum, last, obs: Duration::from_millis(obs), obs2, hs: self.hist(v), he: self.hist(v), hv: self.hist(v), ps: self.pre(v), pe: self.pre(v), pd: self.pre(v) }
+        InNk { sum, last, obs: Duration::from_millis(obs), obs2, hs: self.hist(v), he: self.hist(v), hv: self.hist(v), ps: self.pre(v), pe: self.pre(v), pd: self.pre(v), tiny: v as f64 * 1e-17 }
     }
     fn input_dir(&self, v: u64) -> InDir {
         let (sum, last, obs, obs2) = self.vals[v as usize - 1];
-        InDir { sum, last, obs: Duration::from_millis(obs), obs2, ps: self.pre(v), pe: self.pre(v), pd: self.pre(v) }
+        InDir { sum, last, obs: Duration::from_millis(obs), obs2, ps: self.pre(v), pe: self.pre(v), pd: self.pre(v), tiny: v as f64 * 1e-17 }
     }
 }
 
@@ -405,6 +415,8 @@ struct Agg {
     ps: Vec<u64>,
     pd: Vec<u64>,
     pe: u64,
+    /// tiny-magnitude distribution: (value / 1e-17 rounded, occurrences) per emitted distinct value
+    tiny: Vec<(u64, u64)>,
 }
 
 fn metric_list(e: &TestEntry, name: &str) -> Vec<u64> {
@@ -429,6 +441,16 @@ fn agg_of_entry(e: &TestEntry) -> Agg {
         ps: metric_list(e, "ps"),
         pd: metric_list(e, "pd"),
         pe: e.metrics.get("pe").map(|m| m.num_observations()).unwrap_or(0),
+        tiny: {
+            let mut t: Vec<(u64, u64)> = e.metrics.get("tiny").map(|m| m.distribution.iter().map(|o| match o {
+                Observation::Repeated { total, occurrences } if *occurrences > 0 => ((total / *occurrences as f64 / 1e-17).round() as u64, *occurrences),
+                Observation::Floating(f) => ((f / 1e-17).round() as u64, 1),
+                Observation::Unsigned(v) => (*v, 1),
+                _ => (u64::MAX, 0),
+            }).collect()).unwrap_or_default();
+            t.sort();
+            t
+        },
     }
 }
 
@@ -463,7 +485,8 @@ fn agg_of_model(c: &Conc, a: &Value) -> Agg {
     }
     ps.sort();
     let last = a["last"].as_u64().unwrap();
-    Agg { sum, last: if last == 0 { None } else { Some(c.vals[last as usize - 1].1) }, obs, obs2, he: hs.len() as u64, hv: hs.clone(), hs, pe: ps.len() as u64, pd: ps.clone(), ps }
+    Agg { sum, last: if last == 0 { None } else { Some(c.vals[last as usize - 1].1) }, obs, obs2, he: hs.len() as u64, hv: hs.clone(), hs, pe: ps.len() as u64, pd: ps.clone(), ps,
+          tiny: bag.iter().enumerate().filter(|(_, n)| **n > 0).map(|(i, n)| (i as u64 + 1, *n)).collect() }
 }
 
 fn fine_key_of_entry(e: &TestEntry) -> String {
@@ -550,9 +573,11 @@ fn compare_batch(
     for (k, e) in &em {
         let g = &gm[k][0];
         if g != e {
+            let g_tiny_differs = g.tiny != e.tiny;
             let field = if g.sum != e.sum { "summed field" } else if g.last != e.last { "keep-last field" }
                         else if g.obs != e.obs || g.obs2 != e.obs2 { "distribution field" }
                         else if g.hs != e.hs || g.hv != e.hv || g.he != e.he { "distribution field fed by the inputs' own histograms" }
+                        else if g_tiny_differs { "distribution field of tiny-magnitude values (k * 1e-17), per distinct value" }
                         else { "distribution field fed by pre-aggregated values (Repeated with 0, 1, 2 occurrences)" };
             mism.push(json!({"step": step, "sink": what, "what": format!("{field} of the aggregate for key {k}"),
                              "expected": format!("{e:?}"), "got": format!("{g:?}")}));
@@ -596,7 +621,7 @@ impl Target for TKeyed {
     fn gmutate(&mut self, c: &Conc, g: u64, v: u64) {
         let x = self.held.get_mut(&g).unwrap();
         let n = c.input(1, v);
-        (x.sum, x.last, x.obs, x.obs2, x.hs, x.he, x.hv, x.ps, x.pe, x.pd) = (n.sum, n.last, n.obs, n.obs2, n.hs, n.he, n.hv, n.ps, n.pe, n.pd);
+        (x.sum, x.last, x.obs, x.obs2, x.hs, x.he, x.hv, x.ps, x.pe, x.pd, x.tiny) = (n.sum, n.last, n.obs, n.obs2, n.hs, n.he, n.hv, n.ps, n.pe, n.pd, n.tiny);
     }
     fn gdrop(&mut self, g: u64) {
         let x = self.held.remove(&g).unwrap();
@@ -618,17 +643,19 @@ struct TMutexEntry {
 }
 fn compare_all(c: &Conc, e: &TestEntry, st: &Value, what: &str, step: usize, mism: &mut Vec<Value>) {
     let model = st["all"].as_array().unwrap();
-    let mut exp = if model.is_empty() { Agg { sum: 0, last: None, obs: vec![], obs2: vec![], hs: vec![], hv: vec![], he: 0, ps: vec![], pd: vec![], pe: 0 } } else { agg_of_model(c, &model[0]) };
+    let mut exp = if model.is_empty() { Agg { sum: 0, last: None, obs: vec![], obs2: vec![], hs: vec![], hv: vec![], he: 0, ps: vec![], pd: vec![], pe: 0, tiny: vec![] } } else { agg_of_model(c, &model[0]) };
     let got = agg_of_entry(e);
     if what == "mutex_direct" {
         // #[aggregate(direct)] inputs cannot carry histograms (no AggregateValue<Histogram> impl)
         (exp.hs, exp.hv, exp.he) = (got.hs.clone(), got.hv.clone(), got.he);
     }
     if got != exp {
+        let g_tiny_differs = got.tiny != exp.tiny;
         let field = if got.sum != exp.sum { "summed field" } else if got.last != exp.last { "keep-last field" }
                 else if got.obs != exp.obs || got.obs2 != exp.obs2 { "distribution field" }
                 else if got.hs != exp.hs || got.hv != exp.hv || got.he != exp.he { "distribution field fed by the inputs' own histograms" }
-                else { "distribution field fed by pre-aggregated values (Repeated with 0, 1, 2 occurrences)" };
+                else if g_tiny_differs { "distribution field of tiny-magnitude values (k * 1e-17), per distinct value" }
+                        else { "distribution field fed by pre-aggregated values (Repeated with 0, 1, 2 occurrences)" };
         mism.push(json!({"step": step, "sink": what, "what": format!("{field} of the embedded aggregate"),
                          "expected": format!("{exp:?}"), "got": format!("{got:?}")}));
     }
@@ -651,7 +678,7 @@ impl Target for TMutexEntry {
         type G = metrique_aggregation::sink::CloseAndMergeOnDrop<InNk, MutexSink<Aggregate<InNk>>>;
         let gd = self.guards.get_mut(&g).unwrap().downcast_mut::<G>().unwrap();
         let n = c.input_nk(v);
-        (gd.sum, gd.last, gd.obs, gd.obs2, gd.hs, gd.he, gd.hv, gd.ps, gd.pe, gd.pd) = (n.sum, n.last, n.obs, n.obs2, n.hs, n.he, n.hv, n.ps, n.pe, n.pd);
+        (gd.sum, gd.last, gd.obs, gd.obs2, gd.hs, gd.he, gd.hv, gd.ps, gd.pe, gd.pd, gd.tiny) = (n.sum, n.last, n.obs, n.obs2, n.hs, n.he, n.hv, n.ps, n.pe, n.pd, n.tiny);
     }
     fn gdrop(&mut self, g: u64) {
         drop_guard(self.guards.remove(&g));
@@ -689,7 +716,7 @@ impl Target for TMutexDirect {
         type G = metrique_aggregation::sink::MergeOnDrop<InDir, MutexSink<Aggregate<InDir>>>;
         let gd = self.guards.get_mut(&g).unwrap().downcast_mut::<G>().unwrap();
         let n = c.input_dir(v);
-        (gd.sum, gd.last, gd.obs, gd.obs2, gd.ps, gd.pe, gd.pd) = (n.sum, n.last, n.obs, n.obs2, n.ps, n.pe, n.pd);
+        (gd.sum, gd.last, gd.obs, gd.obs2, gd.ps, gd.pe, gd.pd, gd.tiny) = (n.sum, n.last, n.obs, n.obs2, n.ps, n.pe, n.pd, n.tiny);
     }
     fn gdrop(&mut self, g: u64) {
         drop_guard(self.guards.remove(&g));
@@ -779,15 +806,15 @@ impl Target for TWorker {
         match self.d.as_ref().unwrap() {
             Driver::WorkerKeyed(_) => {
                 let gd = self.guards.get_mut(&g).unwrap().downcast_mut::<WGuard<KeyedAggregator<In>>>().unwrap();
-                (gd.sum, gd.last, gd.obs, gd.obs2, gd.hs, gd.he, gd.hv, gd.ps, gd.pe, gd.pd) = (n.sum, n.last, n.obs, n.obs2, n.hs, n.he, n.hv, n.ps, n.pe, n.pd);
+                (gd.sum, gd.last, gd.obs, gd.obs2, gd.hs, gd.he, gd.hv, gd.ps, gd.pe, gd.pd, gd.tiny) = (n.sum, n.last, n.obs, n.obs2, n.hs, n.he, n.hv, n.ps, n.pe, n.pd, n.tiny);
             }
             Driver::WorkerTee(_) => {
                 let gd = self.guards.get_mut(&g).unwrap().downcast_mut::<WGuard<TeeInner>>().unwrap();
-                (gd.sum, gd.last, gd.obs, gd.obs2, gd.hs, gd.he, gd.hv, gd.ps, gd.pe, gd.pd) = (n.sum, n.last, n.obs, n.obs2, n.hs, n.he, n.hv, n.ps, n.pe, n.pd);
+                (gd.sum, gd.last, gd.obs, gd.obs2, gd.hs, gd.he, gd.hv, gd.ps, gd.pe, gd.pd, gd.tiny) = (n.sum, n.last, n.obs, n.obs2, n.hs, n.he, n.hv, n.ps, n.pe, n.pd, n.tiny);
             }
             Driver::Tee(_) => {
                 let x = self.held.get_mut(&g).unwrap();
-                (x.sum, x.last, x.obs, x.obs2, x.hs, x.he, x.hv, x.ps, x.pe, x.pd) = (n.sum, n.last, n.obs, n.obs2, n.hs, n.he, n.hv, n.ps, n.pe, n.pd);
+                (x.sum, x.last, x.obs, x.obs2, x.hs, x.he, x.hv, x.ps, x.pe, x.pd, x.tiny) = (n.sum, n.last, n.obs, n.obs2, n.hs, n.he, n.hv, n.ps, n.pe, n.pd, n.tiny);
             }
         }
     }
@@ -1105,7 +1132,7 @@ fn run_scen(sc: &Scen) {
                 he.add_value(Duration::from_millis(id));
                 let input = In { ck: ConstKey(3), name: format!("key-{k}"), sum: 1u64 << id, last: id, obs: Duration::from_millis(id), obs2: id,
                                  hs: one(id), he, hv: one(id), ps: Pre { total: id as f64, n: 1 }, pe: Pre { total: id as f64, n: 1 },
-                                 pd: Pre { total: id as f64, n: 1 } };
+                                 pd: Pre { total: id as f64, n: 1 }, tiny: 1e-17 };
                 trace::evi("SendStart", &[("p", pid), ("i", id as i64), ("k", k as i64)]);
                 if p.via_guard {
                     drop(input.close_and_merge(h.clone()));
